@@ -6,7 +6,6 @@ package harness
 
 import (
 	"bytes"
-	"strconv"
 	"context"
 	"encoding/json"
 	"errors"
@@ -17,6 +16,7 @@ import (
 	"os/signal"
 	"path/filepath"
 	"runtime"
+	"strconv"
 	"strings"
 	"sync"
 	"syscall"
@@ -287,8 +287,8 @@ func BudgetFor(s *Step) int64 {
 const Stage1Divisor = 10
 
 type capWriter struct {
-	buf bytes.Buffer
-	cap int
+	buf  bytes.Buffer
+	cap  int
 	over bool
 }
 
@@ -387,6 +387,9 @@ func (e *Env) execSim(w *worker, st *Step, budget int64) (*Result, error) {
 		}
 		res.Journal = &j
 		for _, c := range j.Created {
+			if c.Removed {
+				continue
+			}
 			cb, err := os.ReadFile(c.Real)
 			if err != nil {
 				return nil, Infraf("created file: %v", err)
